@@ -410,7 +410,102 @@ pub fn setter_cases(args: &Args) -> Vec<Case> {
     cases
 }
 
+// ---- entry points -------------------------------------------------------------------------------
+// Every public way of parsing with a configuration must apply it: ModuleConfig::parse,
+// ModuleConfig::parse_file, Module::from_buffer_with_config, Module::from_file_with_config; and the
+// configuration-less Module::from_buffer / Module::from_file must behave like the default one.
+
+pub const ENTRIES: [&str; 6] = ["parse", "parse_file", "from_buffer_with_config", "from_file_with_config", "from_buffer", "from_file"];
+
+pub fn check_entry(c: &Case, verif: &std::path::Path) -> CaseResult {
+    let mut r = CaseResult::default();
+    let entry = c.cfg["entry"].as_str().unwrap_or("parse").to_string();
+    let uses_cfg = !matches!(entry.as_str(), "from_buffer" | "from_file");
+    let cfg = if uses_cfg { Cfg::from_json(&c.cfg) } else { Cfg::default() };
+    r.valid_input = true;
+    let want = roundtrip(&c.wasm, &cfg, false);
+    let count = Arc::new(AtomicUsize::new(0));
+    let mut wc = cfg.config();
+    {
+        let c2 = count.clone();
+        wc.on_parse(move |_, _| {
+            c2.fetch_add(1, Ordering::SeqCst);
+            Ok(())
+        });
+    }
+    let dir = verif.join("work").join("c14");
+    let _ = std::fs::create_dir_all(&dir);
+    static SERIAL: AtomicUsize = AtomicUsize::new(0);
+    let path = dir.join(format!("{}-{}.wasm", std::process::id(), SERIAL.fetch_add(1, Ordering::SeqCst)));
+    if entry.contains("file") && std::fs::write(&path, &c.wasm).is_err() {
+        r.note = Some("C14: cannot write the scratch file for the file entry points".into());
+        return r;
+    }
+    let got = std::panic::catch_unwind(std::panic::AssertUnwindSafe(|| {
+        let m = match entry.as_str() {
+            "parse" => wc.parse(&c.wasm),
+            "parse_file" => wc.parse_file(&path),
+            "from_buffer_with_config" => walrus::Module::from_buffer_with_config(&c.wasm, &wc),
+            "from_file_with_config" => walrus::Module::from_file_with_config(&path, &wc),
+            "from_buffer" => walrus::Module::from_buffer(&c.wasm),
+            _ => walrus::Module::from_file(&path),
+        };
+        m.map(|mut m| m.emit_wasm())
+    }));
+    let _ = std::fs::remove_file(&path);
+    r.transitions = 4;
+    let k = count.load(Ordering::SeqCst);
+    match (got, want) {
+        (Ok(Ok(g)), Ok(w)) => {
+            r.nontrivial = true;
+            r.digests.push(wmodel::fnv(&g));
+            if g != w {
+                r.violations.push(Violation::new("C14", format!("entry-point-ignores-configuration:{}", entry), format!("{} with {:?} emits {} bytes, ModuleConfig::parse with the same configuration {} bytes", entry, cfg, g.len(), w.len()), c));
+            }
+            if uses_cfg && k != 1 {
+                r.violations.push(Violation::new("C14", format!("on-parse-count:{}:on-ok:{}", k.min(2), entry), format!("{}: parse succeeded, the callback ran {} times", entry, k), c));
+            }
+        }
+        (Ok(Err(_)), Err(Fail::Rejected(_))) => {
+            if k != 0 {
+                r.violations.push(Violation::new("C14", format!("on-parse-count:1:on-err:{}", entry), format!("{}: parse failed, the callback ran", entry), c));
+            }
+        }
+        (Ok(Ok(_)), Err(Fail::Rejected(_))) | (Ok(Err(_)), Ok(_)) => {
+            r.violations.push(Violation::new("C14", format!("entry-point-ignores-configuration:{}", entry), format!("{} with {:?} and ModuleConfig::parse disagree on accepting the input", entry, cfg), c));
+        }
+        _ => {}
+    }
+    r
+}
+
+pub fn entry_cases() -> Vec<Case> {
+    let inputs = [("all", build_input(true, 1, true)), ("two-memories", {
+        let mut m = names_base(0);
+        m.customs.push((12, "producers".into(), mb::producers(producers_variants()[1].1.as_ref().unwrap())));
+        m.build()
+    })];
+    let mut out = vec![];
+    for (iname, wasm) in inputs.iter() {
+        for entry in ENTRIES {
+            for bits in 0..64u32 {
+                let cfg = Cfg { names: bits & 1 != 0, producers: bits & 2 != 0, dwarf: bits & 4 != 0, preserve_ct: bits & 8 != 0, stable: bits & 16 != 0, synthetic: bits & 32 != 0 };
+                if (entry == "from_buffer" || entry == "from_file") && bits != 0 {
+                    continue;
+                }
+                let mut j = cfg.json();
+                j["entry"] = json!(entry);
+                out.push(Case { family: "entry-points".into(), coords: format!("{} {} switches={:06b}", iname, entry, bits), wasm: wasm.clone(), cfg: j });
+            }
+        }
+    }
+    out
+}
+
 fn recheck(c: &Case, version: &str) -> Vec<Violation> {
+    if c.cfg.get("entry").is_some() {
+        return check_entry(c, std::path::Path::new("/verif")).violations;
+    }
     if c.cfg.get("setters").is_some() {
         return check_setters(c).violations;
     }
@@ -495,6 +590,7 @@ pub fn run(args: &Args) -> i32 {
         {5 producers variants} x {with/without DWARF} x {1,2,3} round trips, plus three code-less shapes (no function at all; one dead function, with and without gc) carrying data-only DWARF; section inventory + producers content + 'flipping one switch changes only its own section' (byte comparison of raw sections); \
         plus the configuration builder as a state machine: every sequence of setter calls (8 setters, 15 actions) up to length 3 (quick) / 4 (thorough) on two inputs, model = last write wins \
         (generate_dwarf(true) implies code-transform preservation), oracle = output byte-identical to the output under the canonical configuration of the model state, same accept/reject, callback count; \
+        plus every public parsing entry point (ModuleConfig::parse / parse_file, Module::from_buffer_with_config / from_file_with_config, from_buffer / from_file) x 64 switch combinations x two inputs: same bytes, same accept/reject and same callback count as ModuleConfig::parse; \
         plus the parse callback counted on every prefix and 7 substitutions per byte of two seeds. non-trivial = every accepted case (each is a distinct configuration/input pair)"
         .into();
     ev.bounds = json!({"switch_combinations": 64, "inputs": 20, "round_trips": 3});
@@ -503,6 +599,10 @@ pub fn run(args: &Args) -> i32 {
     let sc = setter_cases(args);
     ev.extra.insert("setter_sequences".into(), json!({"alphabet": 15, "max_length": if args.tier == Tier::Quick { 3 } else { 4 }, "sequences_x_inputs": sc.len()}));
     viol.extend(run_sweep(args, &mut ev, &sc, &check_setters));
+    let ec = entry_cases();
+    ev.extra.insert("entry_points".into(), json!({"entries": ENTRIES, "cases": ec.len()}));
+    let verif = args.verif.clone();
+    viol.extend(run_sweep(args, &mut ev, &ec, &|c| check_entry(c, &verif)));
     let (n, v) = callback_cases(&mut ev);
     ev.evaluations += n;
     ev.transitions += n;
